@@ -28,7 +28,7 @@ LEVEL_TEXT = (
     "EVERY program (any nesting and length, any exit codes, decorators, pipelines, injected @$() commands, both flags) whose chain "
     "operands are bare / ![] / !() commands, Impl = Spec (executed log and escaping error). The full statement is false for $[] and "
     "$() operands (their Python value, None / the output string, decides the chain instead of the exit code: C05_cex_uncaptured, "
-    "C05_cex_stdout; known finding) and where a Python-looking operand sits directly before a `)` (C05_cex_subchain_drop; known finding). C05_no_stmt_after_raise; C05_old_rule_cex_cmd_raise documents the repaired order of tests. Tie: generated programs run through the real "
+    "C05_cex_stdout; known finding). C05_cex_subchain_drop describes the pinned snapshot's sub-chain drop for a Python-looking operand directly before a `)` (repaired in e204b18; its witness is replayed and must pass). C05_no_stmt_after_raise; C05_old_rule_cex_cmd_raise documents the repaired order of tests. Tie: generated programs run through the real "
     "Execer (callable aliases and real sh children), compared with Impl (correspondence) and Spec (property); process exit status "
     "of `xonsh -c` / script runs is sampled."
 )
